@@ -22,6 +22,7 @@ type Tape struct {
 	s      uint64
 	replay []int
 	strict []Choice // when non-nil: strict replay, kinds must match
+	kinds  []string // lenient replay of a frozen tape: recorded kinds, used by ChooseOpt only
 	pos    int
 	Rec    []Choice
 	// Mismatch is set in strict mode when kind or bound differ (harness determinism bug).
@@ -33,6 +34,27 @@ type Tape struct {
 func NewTape(seed uint64) *Tape { return &Tape{s: seed*0x9e3779b97f4a7c15 + 0x1234567} }
 
 func ReplayTape(vals []int) *Tape { return &Tape{replay: append([]int{}, vals...), s: 1} }
+
+// ReplayTapeKinds is ReplayTape for frozen regression tapes: the recorded kinds let choices that were added to a
+// check after the tape was frozen (ChooseOpt) be skipped instead of shifting every later value.
+func ReplayTapeKinds(cs []Choice) *Tape {
+	t := &Tape{s: 1}
+	t.replay = make([]int, len(cs))
+	t.kinds = make([]string, len(cs))
+	for i, c := range cs {
+		t.replay[i], t.kinds[i] = c.V, c.Kind
+	}
+	return t
+}
+
+// ChooseOpt is Choose for a decision added to a check later on: replaying a frozen tape that has another kind
+// recorded at this position, it takes the default 0 and consumes nothing.
+func (t *Tape) ChooseOpt(kind string, n int) int {
+	if t.kinds != nil && (t.pos >= len(t.kinds) || t.kinds[t.pos] != kind) {
+		return 0
+	}
+	return t.Choose(kind, n)
+}
 
 func StrictTape(cs []Choice) *Tape {
 	t := &Tape{strict: cs, s: 1}
